@@ -136,6 +136,8 @@ def _run_one(item):
                 _call(out, "polyquad2:%s:%d" % (which, m), lambda: pq(which, True))
             if cfg in ("gaussian", "bosonic"):
                 _call(out, "displacement:%d" % m, lambda: [float(np.real(st.displacement([m])[0])), float(np.imag(st.displacement([m])[0]))])
+            if cfg == "gaussian":
+                _call(out, "squeezing:%d" % m, lambda: [float(x) for x in st.squeezing([m])[0]])
         _call(out, "fidelity_coherent0", lambda: float(np.real(st.fidelity_coherent([0.0] * n))))
         # the state object for an explicit ordered mode selection (engine run option `modes` / backend.state(modes=...)):
         # its k-th subsystem must be the k-th requested mode
@@ -196,7 +198,7 @@ def c16(chk):
                 "accepted, an answer for other modes is not. Non-trivial = (state, method, tuple) with an entangled/displaced state.")
     chk.assumptions = ["formulas applied last in the harness: parity = exp(-qf/2)/sqrt(det), vacuum fidelity = 2^n exp(-qfI/2)/sqrt(detI), "
                        "Wigner = exp(-(r-mu)^T V^-1 (r-mu)/2)/(2 pi sqrt(det V)) (hbar = 2)", "Fock comparisons within the truncation slack"]
-    plans = [(3, 1, "q", "e3", 2, [("gaussian", None), ("bosonic", None)]), (2, 1, "q", "e2", 2, [("fock", 12), ("fockmixed", 10)]),
+    plans = [(1, 2, "q", "vac", 1, [("gaussian", None)]), (3, 1, "q", "e3", 2, [("gaussian", None), ("bosonic", None)]), (2, 1, "q", "e2", 2, [("fock", 12), ("fockmixed", 10)]),
              (3, 0, "q", "p3", 2, [("fock", 10), ("gaussian", None), ("bosonic", None)]), (3, 0, "q", "x3", 2, [("gaussian", None), ("bosonic", None), ("fock", 10)]),
              (3, 0, "q", "p2", 2, [("gaussian", None), ("bosonic", None), ("fock", 10)]),
              (3, 0, "q", "e3", 3, [("gaussian", None), ("bosonic", None), ("fock", 10), ("fockmixed", 8)])]
@@ -496,6 +498,15 @@ def judge(chk, cfg, cutoff, it, o):
                 check("poly_quad_expectation", "polyquad2:%s:%d" % (w, m), o.get("polyquad2:%s:%d" % (w, m)), V1[idx][idx] + mu1[idx] ** 2, 3 * s2, [m])
             if "displacement:%d" % m in o:
                 check("displacement", "displacement:%d" % m, o["displacement:%d" % m], [mu1[0] / 2, mu1[1] / 2], s2, [m])
+            sq = o.get("squeezing:%d" % m)
+            if sq is not None and abs(V1[0][0] * V1[1][1] - V1[0][1] * V1[1][0] - 1) < 1e-12:
+                # a pure one-mode state is the displaced squeezed vacuum S(r, phi): the reported (r, phi) must reproduce its covariance
+                if isinstance(sq, dict):
+                    check("squeezing", "squeezing:%d" % m, sq, None, s2, [m])
+                else:
+                    c, sh = math.cosh(2 * sq[0]), math.sinh(2 * sq[0])
+                    check("squeezing", "squeezing:%d" % m, [c - math.cos(sq[1]) * sh, -math.sin(sq[1]) * sh, c + math.cos(sq[1]) * sh],
+                          [V1[0][0], V1[0][1], V1[1][1]], 10 * s2, [m])
     fc0, fvv = o.get("fidelity_coherent0"), o.get("fidelity_vacuum")
     if fc0 is not None and fvv is not None and not isinstance(fvv, dict):
         check("fidelity_coherent", "fidelity_coherent0", fc0, fvv, 1e-9, None)
